@@ -3,7 +3,7 @@
    this file lists what is proved now.) *)
 From Coq Require Import ZArith List Bool.
 From Verif Require Import Base.Wrap Base.Bytes Gen.GenConsts Gen.GenFrame Model.TypedBuf Model.Messages
-  Model.Crc Model.Frag Model.FragWire Spec.FragSpec Spec.FragOk Proofs.FragWireP.
+  Model.Crc Model.Frag Model.FragWire Spec.FragSpec Spec.FragOk Proofs.FragWireP Proofs.FragWP.
 Import ListNotations.
 Local Open Scope Z_scope.
 
@@ -24,6 +24,24 @@ Theorem C01_fragment_layout : forall f,
   parse_frag_payload c_messageTypeCallReqContinue (enc_frag_payload [] f) = (0, f).
 Proof. exact parse_frag_roundtrip. Qed.
 
+(* WRITER, all scripts: for every capacity function with at least 3 bytes in the initial and
+   5 in continuation fragments, every checksum, and every three arguments written with ANY
+   sequence of write sizes and explicit flushes: no panic, every operation returns nil, the
+   writer ends Complete having called doneSending, the emitted fragments denote exactly the
+   three byte strings, each fragment has >= 1 chunk, fits its capacity and carries the
+   more-fragments flag iff it is not the last, and each checksum field is the running checksum. *)
+Theorem C01_writer : forall (capf : bool -> Z) ck a1 a2 a3,
+  3 <= capf true -> 5 <= capf false ->
+  exists codes st,
+    w_run capf (script3 a1 a2 a3) (w_init ck) [] = Some (codes, st) /\
+    Forall (fun c => c = 0) codes /\
+    ws_state st = c_fragmentingWriteComplete /\ ws_done st = true /\
+    denote (chunks_of (ws_out st)) = [arg_bytes a1; arg_bytes a2; arg_bytes a3] /\
+    frames_ok capf (ws_out st) /\
+    ck_chain ck (ws_out st).
+Proof. exact writer_correct. Qed.
+
+Print Assumptions C01_writer.
 Print Assumptions C01_frame_bytes.
 Print Assumptions C01_fragment_layout.
 
